@@ -16,6 +16,8 @@ SHAPES = {
     "join3": [("A", ["src"], ["a"]), ("B", ["src2"], ["b"]), ("C", ["a", "b"], ["c"])],
     "diamond4": [("A", ["src"], ["a"]), ("B", ["a"], ["b"]), ("C", ["a"], ["c"]), ("D", ["b", "c"], ["d"])],
     "two-ends": [("A", ["src"], ["a"]), ("B", ["a"], ["b"]), ("C", ["a"], ["c"]), ("E", ["src2"], ["e"])],
+    # A declares a directory as its output; B's protected output, the endpoint C's output and a stray file live inside it
+    "dir-output": [("A", ["src"], ["work"]), ("B", ["src"], ["work/b"]), ("C", ["work/b"], ["work/c"])],
     "chain2+sink": [("A", ["src"], ["a"]), ("B", ["a"], ["b"]), ("N", ["b"], [])],
 }
 SOURCES = ["src", "src2"]
